@@ -241,6 +241,20 @@ theorem atomic_exact (s : Str) :
     isAtomic s = true ↔ ∃ a, ValidAtom a ∧ (s = a ∨ s = a ++ ['\n']) :=
   isAtomic_iff s
 
+/-- `is_compound` accepts exactly the strings that contain two table atoms joined by `*` or `/` (it searches,
+so anything may stand in front and behind) -/
+theorem compound_exact (s : Str) :
+    isCompound s = true ↔ ∃ front a₁ c a₂ back, ValidAtom a₁ ∧ ValidAtom a₂ ∧ (c = '*' ∨ c = '/') ∧
+      s = front ++ a₁ ++ c :: a₂ ++ back :=
+  isCompound_iff s
+
+/-- hence `is_si`: a table atom (optionally followed by a newline) or a string containing such a pair -/
+theorem si_exact (s : Str) :
+    isSi s = true ↔ (∃ a, ValidAtom a ∧ (s = a ∨ s = a ++ ['\n'])) ∨
+      (∃ front a₁ c a₂ back, ValidAtom a₁ ∧ ValidAtom a₂ ∧ (c = '*' ∨ c = '/') ∧
+        s = front ++ a₁ ++ c :: a₂ ++ back) :=
+  isSi_iff s
+
 /-- every table atom is a fixed point of the clean-up, and blanks anywhere in it do not matter -/
 theorem sanitizer_atoms (s a : Str) (ha : ValidAtom a) (hs : removeBlanks s = a) :
     sanitizer a = a ∧ sanitizer s = a ∧ isSi (sanitizer s) = true :=
